@@ -450,11 +450,16 @@ impl Plane {
     if self.content.is_empty() {
       return Err(plane_is_empty());
     }
+    // when the rule numbers are placed in the last row, then the top-left corner contains
+    // the first input expression, which may read like a hit policy marker
+    let vertical = matches!(self.recognize_rule_numbers_placement(), Ok(RuleNumbersPlacement::RightAfter(_)));
     // check if the hit policy is placed in the top-left corner of the plane
-    if let Some(Cell::Region(_, _, text)) = self.content.first().and_then(|row| row.first()) {
-      if let Ok(hit_policy) = HitPolicy::try_from(text.as_str()) {
-        // top-left corner
-        return Ok(HitPolicyPlacement::TopLeft(hit_policy));
+    if !vertical {
+      if let Some(Cell::Region(_, _, text)) = self.content.first().and_then(|row| row.first()) {
+        if let Ok(hit_policy) = HitPolicy::try_from(text.as_str()) {
+          // top-left corner
+          return Ok(HitPolicyPlacement::TopLeft(hit_policy));
+        }
       }
     }
     // check if the hit policy is placed in the bottom-left corner of the plane
